@@ -18,6 +18,17 @@ MANIFEST = dict(
     technique="Lean 4 proof (invariant + refinement by induction over op sequences) + differential correspondence",
     ref="5/C04")
 
+NEG = -999  # stands for a likelihood of -inf (the model treats it as an ordinary smallest key, as NumPy does)
+
+
+def fkey(k):
+    return -np.inf if k == NEG else float(k)
+
+
+def ikey(t):
+    return NEG if t == -np.inf else int(t)
+
+
 DTYPE = [("id", "f8"), ("logP", "f8"), ("logL", "f8"), ("logW", "f8"), ("logQ", "f8"), ("it", "i4")]
 NCOL = 3
 
@@ -27,7 +38,7 @@ def mk_batch(pairs):
     x = np.zeros(len(pairs), dtype=DTYPE)
     q = np.zeros((len(pairs), NCOL))
     for j, (k, i) in enumerate(pairs):
-        x[j] = (float(i), -0.5 * i, float(k), -1.0, -2.0, i % 7)
+        x[j] = (float(i), -0.5 * i, fkey(k), -1.0, -2.0, i % 7)
         q[j] = [i, i + 0.25, -float(i)]
     return x, q
 
@@ -37,7 +48,7 @@ def record(i, k):
 
 
 def fmt_list(v):
-    return "[" + ",".join(str(int(t)) for t in v) + "]"
+    return "[" + ",".join(str(ikey(t)) for t in v) + "]"
 
 
 def canon(os_, ret):
@@ -129,7 +140,7 @@ def run_impl(ctx, strict, repl, ops, case):
                 orc.add(op[1])
                 os_.add_samples(x, q)
             elif op[0] == "thr":
-                os_.update_log_likelihood_threshold(float(op[1]))
+                os_.update_log_likelihood_threshold(fkey(op[1]))
             elif op[0] == "remove":
                 lp = os_.live_points
                 pre = ([] if lp is None else lp["logL"].tolist(), os_.log_likelihood_threshold)
@@ -147,10 +158,11 @@ def run_impl(ctx, strict, repl, ops, case):
 
 def gen_ops(rng, depth, alphabet, maxb, ids):
     ops = []
+    ninf = rng.random() < 0.2  # this sequence contains -inf likelihoods (and sometimes a -inf threshold)
     def batch(lo=0):
         n = rng.choice([0, 1, 1, 2, 2, 3, maxb]) if maxb <= 4 else rng.choice([1, 2, 3, maxb // 4, maxb])
         n = max(lo, n)
-        return [(rng.choice(alphabet), next(ids)) for _ in range(n)]
+        return [(NEG if ninf and rng.random() < 0.25 else rng.choice(alphabet), next(ids)) for _ in range(n)]
     if rng.random() < 0.97:
         ops.append(("init", batch()))
     thr_set = False
@@ -159,7 +171,7 @@ def gen_ops(rng, depth, alphabet, maxb, ids):
         if r < 0.40:
             ops.append(("add", batch(0 if rng.random() < 0.05 else 1)))
         elif r < 0.65:
-            ops.append(("thr", rng.choice(alphabet + [min(alphabet) - 1, max(alphabet) + 1])))
+            ops.append(("thr", rng.choice(alphabet + [min(alphabet) - 1, max(alphabet) + 1] + ([NEG] if ninf else []))))
             thr_set = True
         elif r < 0.97 or not ops:
             if thr_set or rng.random() < 0.1:
@@ -254,7 +266,8 @@ def parse_line(line):
 def correspond(ctx):
     ctx.rule = ("op sequences init/add/thr/remove/finalise on the real OrderedSamples for the four strict x replace-all modes: "
                 "committed corpus first, random sequences over a 5-value likelihood alphabet with thresholds below/inside/above it "
-                "(depth <= 12, batches 0-4), long sequences (depth 200, batches up to 500), thorough: exhaustive sequences of depth <= 4 "
+                "(a fifth of the sequences also carry -inf likelihoods and -inf thresholds, model key -999) "
+                "(depth <= 12, batches 0-4), long sequences (depth 200, batches up to 500), thorough: exhaustive sequences of depth <= 3 "
                 "over alphabet {0,1,2} with batches of size <= 2; state compared with the Lean model after every op; "
                 "non-trivial = distinct sequence with at least one add/remove that ran past its first op")
     ctx.assume("NumPy primitives searchsorted/insert/argsort/isin behave as modelled in Model/Np.lean (validated by this correspondence)",
@@ -284,7 +297,7 @@ def correspond(ctx):
 
 
 def exhaustive(ctx, lines, impls, cases):
-    """every sequence init;o1;..;od (d<=4) over alphabet {0,1,2}, batches <= 2, thresholds {-1,0,1,2,3}"""
+    """every sequence init;o1;..;od (d<=3) over alphabet {0,1,2}, batches <= 2, thresholds {-1,0,1,2,3}"""
     alpha = [0, 1, 2]
     batches = [[]] + [[a] for a in alpha] + [[a, b] for a in alpha for b in alpha]
     atoms = [("add", b) for b in batches if b] + [("thr", t) for t in (-1, 1, 2, 3)] + [("remove",), ("finalise",)]
